@@ -446,7 +446,14 @@ class Interp(object):
             raise PyRaise('TypeError', str(e))
 
     def _arr_compare(self, name, a, b):
-        if name != 'eq':
+        if name != 'eq' or not (isinstance(a, Arr) and isinstance(b, Arr)):
+            # elementwise comparison of a 1-D array with a scalar (either side) or of two equal-shape 1-D arrays
+            if isinstance(a, Arr) and a.ndim == 1 and not isinstance(b, (Arr, list, tuple)):
+                return Arr([self.compare_vals(name, x, b) for x in a.d])
+            if isinstance(b, Arr) and b.ndim == 1 and not isinstance(a, (Arr, list, tuple)):
+                return Arr([self.compare_vals(name, a, y) for y in b.d])
+            if isinstance(a, Arr) and isinstance(b, Arr) and a.ndim == 1 and a.shape() == b.shape():
+                return Arr([self.compare_vals(name, x, y) for x, y in zip(a.d, b.d)])
             raise Undecidable('array comparison %s' % name)
         if not (isinstance(a, Arr) and isinstance(b, Arr)) or a.shape() != b.shape():
             raise Undecidable('array comparison of different shapes')
@@ -1296,6 +1303,8 @@ class Interp(object):
             return list(v.c)
         if isinstance(v, Opaque) and v.what == 'namedtuple':
             return list(v.attrs.values())     # fields in declaration order
+        if isinstance(v, Opaque) and v.attrs.get('__iter__') is not None:
+            return self.iterate(self.call(v.attrs['__iter__'], [], {}))
         if isinstance(v, Obj):
             if '__iter__' in v.cls.methods:
                 return self.iterate(self.call_method(v, '__iter__'))
